@@ -77,7 +77,7 @@ CONSTS = [Fr(1), Fr(2), Fr(3), Fr(1, 2), Fr(3, 2), Fr(1, 4), Fr(-1), Fr(-2), Fr(
 # =========================================================================== trees
 # Klong-level nodes (JSON friendly lists):
 #   ["const", "n/d"]  ["vconst", ["n/d", ..]]  ["par", name]
-#   ["add"|"sub"|"mul"|"div", a, b]  ["neg", a]  ["pow", a, k]
+#   ["add"|"sub"|"mul"|"div", a, b]  ["neg", a]  ["pow", a, k]  ["gpow", a, b]  (a^b, b an expression)
 #   ["sum", v]  ["prod", v]  ["idx", v, i]  ["count", v]
 #   ["call", fn, a]  ["each", fn, v]  ["eachl", v]   ({x*x}'v)
 #   ["join", [a, b, ..]]
@@ -129,6 +129,8 @@ def render(n):
         return f"(-{render(n[1])})"
     if k == "pow":
         return f"({render(n[1])}^{n[2]})"
+    if k == "gpow":
+        return f"({render(n[1])}^{render(n[2])})"
     if k == "sum":
         return f"(+/{render(n[1])})"
     if k == "prod":
@@ -234,8 +236,12 @@ def gen_s(rng, env, depth, allow_trans, mat=None):
         return [op, gen_s(rng, env, depth - 1, allow_trans), gen_s(rng, env, depth - 1, allow_trans)]
     if r < 0.40:
         return ["neg", gen_s(rng, env, depth - 1, allow_trans)]
-    if r < 0.54:
+    if r < 0.48:
         return ["pow", gen_s(rng, env, depth - 1, allow_trans), rng.choice([2, 2, 3, 3, -1, -2, 1, 0, 4])]
+    if r < 0.54:
+        # a power whose exponent is an expression (x^x, (x@0)^(x@1), w^p, 2^x, x^1.5)
+        return ["gpow", gen_s(rng, env, rng.choice([0, 0, depth - 1]), allow_trans),
+                gen_s(rng, env, rng.choice([0, 0, depth - 1]), allow_trans)]
     if r < 0.72:
         n = rng.choice(vec_lens)
         return [rng.choice(["sum", "sum", "prod"]), gen_v(rng, env, n, depth - 1, allow_trans)]
@@ -267,8 +273,14 @@ def gen_v(rng, env, n, depth, allow_trans):
         return [op, a, b]
     if r < 0.46:
         return ["neg", gen_v(rng, env, n, depth - 1, allow_trans)]
-    if r < 0.62:
+    if r < 0.56:
         return ["pow", gen_v(rng, env, n, depth - 1, allow_trans), rng.choice([2, 2, 3, -1, -2, 1, 0])]
+    if r < 0.62:
+        shape = rng.choice(["vv", "sv", "vs"])
+        dd = rng.choice([0, 0, depth - 1])
+        a = gen_v(rng, env, n, dd, allow_trans) if shape[0] == "v" else gen_s(rng, env, dd, allow_trans)
+        b = gen_v(rng, env, n, dd, allow_trans) if shape[1] == "v" else gen_s(rng, env, dd, allow_trans)
+        return ["gpow", a, b]
     if r < 0.74:
         fns = RAT_FNS + (TRANS_FNS if allow_trans else ())
         return [rng.choice(["call", "each"]), rng.choice(fns), gen_v(rng, env, n, depth - 1, allow_trans)]
@@ -290,8 +302,11 @@ def gen_m(rng, depth, allow_trans):
         return [op, a, b]
     if r < 0.52:
         return ["neg", gen_m(rng, depth - 1, allow_trans)]
-    if r < 0.72:
+    if r < 0.68:
         return ["pow", gen_m(rng, depth - 1, allow_trans), rng.choice([2, 2, 3, -1, -2, 1, 0])]
+    if r < 0.74:
+        return ["gpow", gen_m(rng, rng.choice([0, depth - 1]), allow_trans),
+                rng.choice([gen_m(rng, 0, allow_trans), ["const", frs(rng.choice(CONSTS))]])]
     if r < 0.84:
         fns = RAT_FNS + (TRANS_FNS if allow_trans else ())
         return ["call", rng.choice(fns), gen_m(rng, depth - 1, allow_trans)]
@@ -427,6 +442,20 @@ def dn_fn(name, a):
     return DN(f, d, _a(fp) * a.err + 3 * _a(f), _a(fp) * a.derr + _a(fpp) * _a(a.d) * a.err + 4 * _a(d))
 
 
+def dn_gpow(a, b):
+    """u^v with a non-constant exponent, u > 0:  d(u^v) = v*u^(v-1)*du + u^v*ln(u)*dv"""
+    u, v = float(a.v), float(b.v)
+    if u < 0.25:
+        raise NotSmooth("general power of a base near or below zero")
+    if abs(v) > 4 or abs(v * math.log(u)) > 6:
+        raise NotSmooth("general power too large for the grid")
+    val = u ** v
+    d = v * u ** (v - 1) * float(a.d) + val * math.log(u) * float(b.d)
+    # rounding-error bounds through the composition exp(v * ln u)
+    comp = dn_fn("exp", dn_mul(b, dn_fn("log", a)))
+    return DN(val, d, comp.err + 4 * abs(val), comp.derr + 6 * abs(d))
+
+
 def _bc(a, b, fn):
     """Klong atomic dyad broadcasting: scalar with vector, vector with vector of equal length"""
     if isinstance(a, list) and isinstance(b, list):
@@ -469,6 +498,8 @@ def pd_eval(n, env, seed):
         return _map(pd_eval(n[1], env, seed), dn_neg)
     if k == "pow":
         return _map(pd_eval(n[1], env, seed), lambda a: dn_pow(a, n[2]))
+    if k == "gpow":
+        return _bc(pd_eval(n[1], env, seed), pd_eval(n[2], env, seed), dn_gpow)
     if k == "sum":
         vs = pd_eval(n[1], env, seed)
         acc = vs[0]
@@ -544,6 +575,19 @@ def lower(n, env):
         if kb == "V":
             return "V", [(op, a, y) for y in b]
         return "S", (op, a, b)
+    if k == "gpow":
+        # Klong.C06.gpow: u^v = exp (v * ln u)
+        def gp(x, y):
+            return ("f", "exp", ("*", y, ("f", "log", x)))
+        ka, a = lower(n[1], env)
+        kb, b = lower(n[2], env)
+        if ka == "V" and kb == "V":
+            return "V", [gp(x, y) for x, y in zip(a, b)]
+        if ka == "V":
+            return "V", [gp(x, b) for x in a]
+        if kb == "V":
+            return "V", [gp(a, y) for y in b]
+        return "S", gp(a, b)
     if k == "neg":
         ka, a = lower(n[1], env)
         return (ka, [("n", x) for x in a]) if ka == "V" else ("S", ("n", a))
@@ -745,7 +789,7 @@ def to_np(r):
 
 # =========================================================================== cases
 
-INLINE_SAFE = {"const", "vconst", "par", "add", "sub", "mul", "div", "pow", "sum", "prod", "idx", "join", "neg",
+INLINE_SAFE = {"const", "vconst", "par", "add", "sub", "mul", "div", "pow", "gpow", "sum", "prod", "idx", "join", "neg",
                "count", "flat"}
 SINGLE_FORMS = ["ag", "ag-named", "ag-sym", "nabla", "nabla-sym", "nabla-monad"]
 JAC_FORMS = ["partial", "partial-named", "sysjac", "sysjac-named"]
@@ -758,6 +802,41 @@ def depends(tree, name):
     if tree and tree[0] == "par":
         return tree[1] == name
     return any(depends(a, name) for a in tree if isinstance(a, list))
+
+
+def any_par(tree):
+    if not isinstance(tree, list):
+        return False
+    if tree and tree[0] == "par":
+        return True
+    return any(any_par(a) for a in tree if isinstance(a, list))
+
+
+def pars_in(tree, acc=None):
+    acc = set() if acc is None else acc
+    if isinstance(tree, list):
+        if tree and tree[0] == "par":
+            acc.add(tree[1])
+        else:
+            for a in tree:
+                if isinstance(a, list):
+                    pars_in(a, acc)
+    return acc
+
+
+def untracked_base_power(tree, form=None, env=None):
+    """a power b^e whose base is a plain number while its exponent is tracked: the base holds no
+    parameter (2^x); or, in [a b]∂g — one parameter at a time, the others stay plain values —
+    the base holds only scalar parameters other than one the exponent depends on ((a^a)^(b-a))"""
+    if not isinstance(tree, list):
+        return False
+    if tree and tree[0] == "gpow":
+        pb, pe = pars_in(tree[1]), pars_in(tree[2])
+        if pe and not pb:
+            return True
+        if form == "multi-partial" and env is not None and all(env.kind(q) == "S" for q in pb) and (pe - pb):
+            return True
+    return any(untracked_base_power(a, form, env) for a in tree if isinstance(a, list))
 
 
 def value_program(body, env):
@@ -1074,6 +1153,18 @@ def run_case(ctx, model, real, fam, tree, params, forms=None, backends=None, qui
                                         val if status == "exc" else g0.tolist() if g0 is not None else repr(val)[:200],
                                         ".jacobian(f;p) differs from the exact Jacobian although p∂f returns it")
                         continue
+            if backend == "torch" and not numeric and untracked_base_power(tree, form, env):
+                # torch power() with a plain-number base takes the numpy branch: the tracked exponent is
+                # unwrapped (0-d) or refused (n-d), so the a^b*ln(a) term is lost or the call raises
+                g0 = assemble(val, form, env, m, n) if status == "ok" else None
+                if g0 is None or judge(g0, orc, backend, numeric, nops)[0] != "ok":
+                    ctx.bump("deviation:torch:power:number-base-tracked-exponent")
+                    ctx.oracle_fail("torch:power:number-base-tracked-exponent", case,
+                                    [[float(q) for q in r] for r in orc.jac],
+                                    val if status == "exc" else g0.tolist() if g0 is not None else repr(val)[:200],
+                                    "c^e with c a plain number and e depending on the differentiated variable: "
+                                    "torch autograd raises or drops the c^e*ln(c) term (numpy is right)")
+                    continue
             if status == "exc" and backend == "torch" and unused and not numeric and fclass != "jacobian":
                 # autograd: the output is not connected to (one of) the differentiated inputs
                 ctx.bump("raises:torch:autograd:parameter-not-used")
@@ -1088,6 +1179,13 @@ def run_case(ctx, model, real, fam, tree, params, forms=None, backends=None, qui
                 ctx.oracle_fail("power:integer-array-negative-exponent", case, "the derivative", val,
                                 "a whole-valued power result is coerced to an integer array; raising it to a "
                                 "negative power raises inside the differentiated function")
+                continue
+            if status == "exc" and backend == "torch" and numeric and "pow() received an invalid combination" in val \
+                    and "numpy.ndarray" in val:
+                ctx.bump("raises:torch:numeric:tensor-power-numpy-exponent")
+                ctx.oracle_fail("torch:numeric:tensor-power-numpy-exponent", case, "the derivative", val,
+                                "numeric differentiation hands numpy probes to the function; a tensor constant "
+                                "raised to such a probe ([2.0 1.0]^x) is refused by Tensor.pow")
                 continue
             if status == "exc" and backend == "torch" and numeric and "must be Tensor, not" in val:
                 ctx.bump("raises:torch:numeric:backend-function-on-scalar")
@@ -1383,7 +1481,20 @@ FIXED = [
      {"w": [Fr(1), Fr(2)], "b": Fr(1, 2), "c": [Fr(2), Fr(1), Fr(3)]}),
     ("multi-jac", ["join", [["mul", ["par", "w"], ["par", "b"]], ["sum", ["par", "w"]]]],
      {"w": [Fr(1), Fr(2)], "b": Fr(1, 2)}),
+    # powers with a non-constant exponent: d(u^v) = v*u^(v-1)*du + u^v*ln(u)*dv
+    ("scalar", ["gpow", ["par", "x"], ["par", "x"]], {"x": Fr(2)}),
+    ("scalar", ["gpow", ["add", ["par", "x"], ["const", "1/1"]], ["mul", ["par", "x"], ["const", "1/2"]]], {"x": Fr(2)}),
+    ("scalar", ["gpow", ["par", "x"], ["const", "3/2"]], {"x": Fr(2)}),
+    ("vector", ["gpow", ["idx", ["par", "x"], 0], ["idx", ["par", "x"], 1]], {"x": [Fr(2), Fr(3)]}),
+    ("vector", ["sum", ["gpow", ["par", "x"], ["par", "x"]]], {"x": [Fr(2), Fr(3, 2)]}),
+    ("vector", ["sum", ["gpow", ["par", "x"], ["idx", ["par", "x"], 0]]], {"x": [Fr(2), Fr(3)]}),
+    ("jac", ["join", [["gpow", ["par", "x"], ["idx", ["par", "x"], 1]], ["gpow", ["idx", ["par", "x"], 0], ["par", "x"]]]],
+     {"x": [Fr(2), Fr(3)]}),
+    ("multi", ["add", ["gpow", ["par", "a"], ["par", "b"]], ["mul", ["par", "b"], ["par", "a"]]], {"a": Fr(2), "b": Fr(3)}),
+    ("multi", ["sum", ["gpow", ["par", "w"], ["par", "b"]]], {"w": [Fr(2), Fr(3, 2)], "b": Fr(3)}),
     # witnesses of the known findings (findings.d/C06.json)
+    ("scalar", ["add", ["gpow", ["const", "2/1"], ["par", "x"]], ["par", "x"]], {"x": Fr(3)}),
+    ("scalar", ["sum", ["gpow", ["vconst", ["2/1", "2/1", "1/1"]], ["par", "x"]]], {"x": Fr(1)}),
     ("multi", ["sum", ["par", "w"]], {"w": [Fr(1), Fr(2)], "b": Fr(2)}),
     ("matrix", ["sum", ["flat", ["pow", ["add", ["sub", ["const", "3/1"], ["par", "x"]], ["const", "-2/1"]], -1]]],
      {"x": [[Fr(3, 2), Fr(3)], [Fr(1, 2), Fr(5, 2)], [Fr(-1, 2), Fr(2)]]}),
@@ -1402,7 +1513,7 @@ def run(ctx):
     model = Model(drv) if drv else None
     real = Real()
     ctx.rule = ("typed random expression trees (depth <= 3, size <= 14 quick / 22 thorough) over + - * %, integer powers "
-                "-2..4, negate, +/ */ @ # each, named functions sq cube recip (exact) and sin cos exp log sqrt tanh, "
+                "-2..4, powers with an expression as exponent (x^x, (x@0)^(x@1), w^p, c^x), negate, +/ */ @ # each, named functions sq cube recip (exact) and sin cos exp log sqrt tanh, "
                 "scalar / vector / matrix / multi-parameter, x half-integer grid points in [-2.5, 3] with every "
                 "denominator / log / sqrt argument >= 1/4, x forms f:>p, named, by symbol, p∇f, x∇f, ∇f, p∂g, "
                 ".jacobian, loss:>[..], [..]∂g, x numpy and torch; plus fixed cases from the test-suite and "
